@@ -193,7 +193,14 @@ pub fn gen_expr(p: &Profile, c: &mut dyn Choices, depth: u32) -> E {
             let n = match f.arity {
                 Arity::One => 1,
                 Arity::Two => 2,
-                Arity::Var1 => 1 + c.below(p.max_args),
+                Arity::Var1 => {
+                    // mostly short lists; now and then a long one (sorting / selection paths differ by length)
+                    if c.below(24) == 23 {
+                        5 + c.below(36)
+                    } else {
+                        1 + c.below(p.max_args)
+                    }
+                }
                 Arity::Var0 => {
                     // rarely empty
                     if c.below(16) == 15 {
